@@ -159,10 +159,19 @@ def safename(name: str) -> str:
     return safe_simple_name(name)
 
 
+UVL_KEYWORDS = {'include', 'namespace', 'imports', 'as', 'features', 'cardinality', 'constraint', 'constraints',
+                'sum', 'avg', 'len', 'floor', 'ceil', 'String', 'Integer', 'Real', 'Boolean', 'Arithmetic', 'Type',
+                'or', 'alternative', 'optional', 'mandatory', 'true', 'false'}
+
+
 def safe_simple_name(name: str) -> str:
     if name.startswith("'") and name.endswith("'"):
         return name
-    return f'"{name}"' if any(char not in safecharacters() for char in name) else name
+    # A bare identifier starts with a letter, has only letters, digits and '_' and is not a keyword.
+    bare = (name != '' and name[0] in string.ascii_letters
+            and all(char in safecharacters() for char in name)
+            and name not in UVL_KEYWORDS)
+    return name if bare else f'"{name}"'
 
 
 def safecharacters() -> str:
